@@ -200,12 +200,8 @@ def run(chk):
                 chk.corr_fail.append((desc, got, mo))
             if got != sp:
                 ncmp = sum(1 for t in toks if 0 <= t < 1000 and OPS[t] in COMPARISONS)
-                has_prefix_union = any(0 <= t < 1000 and OPS[t] == '|' for t in toks) and \
-                    any(a in (CODE['-'], CODE['+']) for a in toks)
                 if got == mo and v == '10' and ncmp >= 2:
                     chk.known('C04-xpath1-comparison-chains', desc | {'impl': 'rejected' if got == [-9] else got, 'spec': sp})
-                elif got == mo and v == '10' and has_prefix_union and got != [-9] and sp != [-9]:
-                    chk.known('C04-xpath1-unary-union', desc | {'impl': got, 'spec': sp})
                 else:
                     chk.violation('impl-vs-spec', desc, {'impl': got, 'spec': sp, 'model': mo})
             if mo != [-9] and len(toks) >= 5:
